@@ -20,7 +20,7 @@ RULE = ("call specs = (function, parameter variant, dtype, backend) over 42 publ
 BUDGET = {'quick': 170, 'thorough': 1500}
 MODES = {'quick': [('J', 8), ('I', 8)], 'thorough': [('J', 8), ('I', 8)]}
 FLOORS = {'quick': {'repeat_identical': 141, 'fresh_process_identical': 48, 'reordered_other_threads_identical': 220, 'functions_in_sequences': 1,
-                    'state_tables_unchanged': 250, 'compiled_mode_sequences': 4, 'pair_second_call_equals_fresh': 36},
+                    'state_tables_unchanged': 250, 'compiled_mode_sequences': 4, 'pair_second_call_equals_fresh': 36, 'edited_argument_recomputed': 150},
           'thorough': {'repeat_identical': 2500, 'fresh_process_identical': 1200}}
 ASSUMPTIONS = ['bump() is excluded: it draws from the unseeded global RNG by design',
                'compiled-mode workers are the ones that can see stale JIT specialisations (Numba freezes closure/global values at compile time); '
@@ -252,6 +252,8 @@ def plan(tier, seed):
     # process must equal B alone in a new process (stale per-function caches and frozen closures show exactly here)
     m = 16 if tier == 'quick' else 200
     out += [('pairs', i) for i in range(m)]
+    # call, edit the argument rasters in place, call again: the second result must be that of the edited rasters
+    out += [('edit', i) for i in range(32 if tier == 'quick' else 400)]
     return out
 
 
@@ -306,9 +308,56 @@ def check_pairs(rec, idx, rng, tier):
             rec.sample(dict(pair=[A, B], note='B after A in one new process vs B alone in another; spec = function|variant|dtype|dask'))
 
 
+def check_edit(rec, idx, rng, tier):
+    """Per function: call on rasters R, edit R's arrays in place (same objects), call again; the second result must equal
+    the result of the same call on fresh deep copies of the edited rasters (no identity-keyed cache may survive an edit)."""
+    import copy
+    specs_all = [s for s in all_specs() if s.endswith('|0') and not s.startswith(('big.', 'circle_kernel', 'annulus_kernel', 'perlin', 'generate_terrain'))]
+    J = rec.mode == 'J'
+    heavy = ('proximity', 'allocation', 'direction', 'viewshed', 'polygonize')
+    n = (6 if tier == 'quick' else 20) if J else (25 if tier == 'quick' else 60)
+    import warnings
+    warnings.simplefilter('ignore')
+    for q in range(n):
+        s = str(rng.choice(specs_all))
+        if J and tier == 'quick' and s.split('|')[0] in heavy and rng.random() < 0.8:
+            continue
+        rec.evaluation()
+        try:
+            call, rasters = build(s, rec.seed)
+            if not rasters or not all(isinstance(r.data, np.ndarray) and r.data.flags.writeable for r in rasters):
+                continue
+            d1 = digest(call(), 1)
+            # in-place edit of the same objects
+            for r in rasters:
+                a = r.data
+                m = rng.random(a.shape) < 0.3
+                if a.dtype.kind == 'f':
+                    a[m] = np.round(a[m] * 0.5 + 3)
+                else:
+                    a[m] = (a[m] // 2 + 1).astype(a.dtype)
+            d2 = digest(call(), 1)
+            # reference: same call on fresh copies of the edited rasters
+            call_f, rasters_f = build(s, rec.seed)
+            for rf, r in zip(rasters_f, rasters):
+                rf.data[...] = r.data
+            d3 = digest(call_f(), 1)
+        except Exception as e:
+            rec.rej('raises.' + s.split('|')[0]); continue
+        if d2 != d3:
+            rec.violation('history.result_ignores_in_place_edit', 'call %s after an in-place edit of its argument rasters differs from the same call on fresh copies of the edited rasters%s'
+                          % (s, ' (it still returns the pre-edit result)' if d2 == d1 else ''), dict(spec=s, before_edit=d1, after_edit=d2, fresh_copy_of_edited=d3, mode=rec.mode))
+            continue
+        rec.ok('edited_argument_recomputed'); rec.add('edit_functions', s.split('|')[0])
+        if d1 != d3:
+            rec.nontriv('edit', s)
+
+
 def check(rec, kind, idx, rng, tier):
     if kind == 'pairs':
         return check_pairs(rec, idx, rng, tier)
+    if kind == 'edit':
+        return check_edit(rec, idx, rng, tier)
     specs_all = all_specs()
     J = rec.mode == 'J'
     L = (int(rng.integers(6, 9)) if tier == 'quick' else int(rng.integers(10, 16))) if J else int(rng.integers(20, 31))
